@@ -49,8 +49,13 @@ def check_goal_kinds(ctx, lib, rule):
         if fn:
             r = tables.result(ev.fn_term(fn))
             ctx.expect(r[0] == "ctor" and r[1].endswith("%s::Dynamic" % G) and len(r[2]) == 1 and r[2][0][:2] == ("param", 0), rule, "%s::dynamic|wraps-argument" % G, site_of(fn), "%s::dynamic(x) must be Dynamic(x)" % G)
-        for meth, only in (("is_succeed", "Succeed"), ("is_fail", "Fail")):
-            fn = streams.getfn(ctx, lib, rule, "<%s as crate::goal::AnyGoal>::%s" % (path, meth))
+        for meth, only in (("is_succeed", "Succeed"), ("is_fail", "Fail"), ("is_breakpoint", "Breakpoint")):
+            if meth == "is_breakpoint":
+                fn = lib.fn("<%s as crate::goal::AnyGoal>::%s" % (path, meth))
+                if fn is not None:
+                    ctx.fn_seen(fn["npath"])
+            else:
+                fn = streams.getfn(ctx, lib, rule, "<%s as crate::goal::AnyGoal>::%s" % (path, meth))
             if not fn:
                 continue
             t = ev.fn_term(fn)
